@@ -847,6 +847,20 @@ func (w *World) clientStep(c *simClient) {
 		} else {
 			args := it.Args
 			for i, a := range args {
+				if string(a) == "$prev" {
+					// the bulk/simple string this connection received last
+					prev := ""
+					for i := len(w.history) - 1; i >= 0; i-- {
+						if o := w.history[i]; o.Client == c.idx && o.Return >= 0 {
+							prev = o.Reply.S
+							break
+						}
+					}
+					args2 := append([]B(nil), args...)
+					args2[i] = B(prev)
+					args = args2
+					continue
+				}
 				if strings.HasPrefix(string(a), "$id:") {
 					// the emulator's id of another scripted connection
 					n, _ := strconv.Atoi(string(a[4:]))
